@@ -323,6 +323,9 @@ class HdlcFrameReader(MeterReaderBase[HdlcFrame]):
         """
         frames_received: list[HdlcFrame] = []
 
+        # Bytes read by previous calls are no longer needed.
+        self._buffer.trim_buffer_to_current_position()
+
         self._buffer.extend(data_chunk)
 
         if self._frame is None:  # in hunt mode
